@@ -28,6 +28,20 @@
   plugged in there; and the Config / Handshake state machines (C07 / C09 / C11), whose transitions are
   functions of the DECODED frames delivered by (ii) — their correspondence under custom codecs is
   established by differential sessions in the check, not by a theorem.
+
+  What the model abstracts from, and how it is tied (review pass 2, R4-E-M1): in `Codec` a frame id is a `Nat`, a
+  payload a `List UInt8`, `footValidate : Bool`, a rejection an `Err`.  A Python codec class is free in the concrete
+  TYPES it uses for these as long as the values are the same: the id of `DParseHdr` / `DParseFrame` only has to EQUAL
+  the `EParseId` number (nxslib compares ids with `==` / `!=` only — rule R6 of the static scan behind
+  `frame_uses_generic`; a codec may report the plain int read off the wire, or a member of its own IntEnum), payloads
+  and created frames may be `bytes` or `bytearray`.  The check realises the family members in Python with each of
+  these choices (harness/famcodec.py, `impl=` letters i n a m b) and compares reassembly, ROUTING of the reassembled
+  frames to the control / stream queue (`Route.queues`, lines `fam <P> reasm route`), dispatch, builders and whole
+  sessions for all of them.  Two results are NOT free, because nxslib itself tests them by identity: `foot_validate`
+  must return a real `bool` (`recv_handle`: `foot_validate(...) is False`; an `int(ok)` result lets a corrupted request
+  through on the device side while the same codec's `frame_decode` rejects it on the client side — existing behaviour
+  of the code, outside the property: the interface says `-> bool`) and `err` must be the `EParseError` member
+  (`hdr.err is not EParseError.NOERR`, pinned by rule R5).
 -/
 import NxsModel.Gen.FrameUse
 import NxsModel.Lemmas.Family
@@ -396,14 +410,18 @@ theorem family_stream_pipeline (p : Family.Params) (hp : p.valid) (user : List U
 /-- `comm.py`, `parse.py`, `parserecv.py`, `nxscope.py`, `intf/dummy.py` contain no frame literal (0x55,
     "<BHB", a 4 / 2 / 6 or any other size constant next to frame data, a `.find(` of the start marker)
     and no direct use of `SerialFrame` outside the default argument: every use is `self._frame.*` /
-    `self._parse.frame.*` (table `Gen.FrameUse.uses`) -/
+    `self._parse.frame.*` (table `Gen.FrameUse.uses`); decode results are used through their fields only, `err`
+    only as `is (not) EParseError.NOERR` (R5), and no frame id is compared by identity (R6: `fid is EParseId.X`
+    would tie the code to codecs that hand out `EParseId` members — the model's `fid : Nat` is compared by value) -/
 theorem frame_uses_generic : Gen.FrameUse.noFrameLiterals = true := by decide
 
 /-- every request / response builder (`_frame_set_single/_bulk/_all`, `frame_start`, `frame_cmninfo`,
     `frame_chinfo`; `frame_cmninfo_encode`, `frame_chinfo_encode`, `frame_stream_encode`, `frame_ack_encode`)
     goes through the codec member `frame_create` exactly once and returns that call's result (or `None`)
     straight to the caller — the shape `Generic.lean` transcribes: nothing is kept, cached or edited
-    between the codec and the caller -/
+    between the codec and the caller; and `frame_enable` / `frame_div` (table `Gen.FrameUse.wrappers`) do not
+    touch the codec themselves: each of their branches (tuple, ALL, BULK) returns the unedited result of one of
+    the `_frame_set_*` builders (`Generic.frameEnable` / `frameDiv`) -/
 theorem builders_use_codec : Gen.FrameUse.buildersUseCodec = true := by decide
 
 /-- `proto/iframe.py`: `ICommFrame` declares only the seven abstract members (no state, no `__new__`,
